@@ -50,7 +50,15 @@ var vpReadOps = []vpReadOp{
 	}},
 	{"OnCollectionIntf-read", func(x Item) []byte {
 		var out []byte
-		_ = OnCollectionIntf(x, func(c CollectionInterface) error { out = append(out, byte(c.Count())); return nil })
+		_ = OnCollectionIntf(x, func(c CollectionInterface) error {
+			out = append(out, byte(c.Count()), byte(len(c.Collection())))
+			out = append(out, vpBoolBytes(c.Contains(IRI("https://h.ex/m7")))[0])
+			return nil
+		})
+		// the same inspectors called on the value itself
+		if c, ok := x.(CollectionInterface); ok {
+			out = append(out, byte(c.Count()), byte(len(c.Collection())))
+		}
 		return out
 	}},
 	{"ItemOrderTimestamp", func(x Item) []byte { return vpBoolBytes(ItemOrderTimestamp(x, x)) }},
@@ -133,15 +141,16 @@ func vpC12Frozen(ti int) {
 			&Actor{ID: "https://h.ex/m1", Type: PersonType, Published: vpTimes[0].AddDate(1, 0, 0)},
 		}
 	}
+	// the declared total is below the number of members held: an inspector that "repairs" it writes
 	switch c := x.(type) {
 	case *OrderedCollection:
-		c.OrderedItems = members()
+		c.OrderedItems, c.TotalItems = members(), 1
 	case *OrderedCollectionPage:
-		c.OrderedItems = members()
+		c.OrderedItems, c.TotalItems = members(), 1
 	case *Collection:
-		c.Items = members()
+		c.Items, c.TotalItems = members(), 1
 	case *CollectionPage:
-		c.Items = members()
+		c.Items, c.TotalItems = members(), 1
 	case *Question:
 		c.AnyOf = members()
 	}
